@@ -100,13 +100,10 @@ for d in sorted(glob.glob(os.path.join(V, "seeded/*/meta.json"))):
         s = s[:327] + "..."
     s = s.replace("|", "\\|")
     r = res.get(name, {})
-    by = []
-    for k, v in sorted(r.items()) if isinstance(r, dict) and "result" not in r else [(r.get("property", "?"), r)]:
+    by, kinds = [], []
+    for k, v in sorted(r.items()):
         if v.get("result") == "caught":
-            by.append("%s" % k)
-    kinds = []
-    for k, v in (sorted(r.items()) if isinstance(r, dict) and "result" not in r else [(r.get("property", "?"), r)]):
-        if v.get("result") == "caught":
+            by.append(k)
             kinds.append("model only" if "no-failing-input-found" in v.get("line", "") else "failing input")
     E.append("| %s | %s | %s | %s | %s |" % (name, s, ", ".join(by) or "**not reported**", ", ".join(kinds), notes.get(name, "")))
 
